@@ -338,12 +338,12 @@ def fair_safe_set():
 
 def run_c15(rep, tier):
     from . import findings
-    rep.assumptions += ['total structures with n<=3 states; |F|<=2 fairness sets (all subsets, symbolic); Boolean constants excluded from formulas (the property does not fix their fair meaning)',
+    rep.assumptions += ['total structures with n<=3 states (get_fair_states itself: n<=4 with |F|<=1); |F|<=2 fairness sets (all subsets, symbolic); Boolean constants excluded from formulas (the property does not fix their fair meaning)',
                         'open known findings D7-D10 (known_findings.json) are excluded by their class predicates and re-found natively on every run; everything outside the classes is decided',
                         '/repo at fix commit 3d1a560 or later (E R under fairness)']
     rep.cov['trusted_base'] = TRUSTED
     rep.cov['explanation'] = ('get_fair_states and CTL/CTLS.modelcheck(K,f,F) executed symbolically with symbolic fairness sets; oracle = Emerson-Lei fair-path semantics with atoms meaning '
-                              '"p and a fair path starts here". Decided: get_fair_states subset-of-fair-states on every input; equality outside class D7; modelcheck == fair semantics outside '
+                              '"p and a fair path starts here". Decided: get_fair_states subset-of-fair-states and closed under predecessors on every input; equality outside class D7; modelcheck == fair semantics outside '
                               'classes D7/D8; F=[] and F=[S] equal the unconstrained answer outside D7; no exception and K unchanged on every input incl. inside the classes')
     nk = findings.report_open(rep, 'C15')
     gone = set(rep.cov.get('findings_not_reproducing', []))
@@ -354,20 +354,23 @@ def run_c15(rep, tier):
     # (a) get_fair_states
     ft = [(2, 0, None), (2, 1, None), (2, 2, None), (3, 0, None), (3, 1, None), (3, 2, None)]
     ft += [(3, 1, list(p)) for p in itertools.permutations(range(3)) if list(p) != [0, 1, 2]]
+    # four states: F=[] in one run (16 unknowns); one fairness set forked over its 16 values
+    ft += [(4, 0, None)] + [(4, 1, None, {'f0_%d' % i: v for i, v in enumerate(vals)}) for vals in itertools.product([False, True], repeat=4)]
     for t, st, r, secs in pmap(mc.fair_states_task, ft):
-        key = 'get_fair_states n=%d |F|=%d order=%s' % (t[0], t[1], t[2] or 'identity')
+        key = 'get_fair_states n=%d |F|=%d order=%s%s' % (t[0], t[1], t[2] or 'identity', (' F0=%s' % ''.join('1' if v else '0' for v in t[3].values())) if len(t) > 3 else '')
         if st != 'ok':
             rep.inconclusive('%s: %s' % (key, r))
             continue
         rep.encoded_add(r['encoded'])
         for asp, desc in (('sound', 'result is a subset of the states with a fair path; K unchanged; no exception (every input)'),
+                          ('closed', 'result is closed under predecessors: a state with a successor in the result is in the result (every input)'),
                           ('verdict', 'result == states with a fair path (inputs outside class D7)' if d7 else 'result == states with a fair path (every input)')):
             v = r[asp] if (asp != 'verdict' or d7) else r['all_inputs_exact']
-            rep.obligation(key + ' ' + asp, v, r['solver_s'] / 2, r['queries'] // 2,
+            rep.obligation(key + ' ' + asp, v, r['solver_s'] / 3, r['queries'] // 3,
                            dict(obligation=desc, task=key, verdict=v, audit=r.get('audit'), gates=r['gates']))
             if v == 'sat':
-                m = r.get('model') if (asp != 'verdict' or d7) else r.get('d7_model')
-                path, out = mc.fair_replay(r, m, 'not (got <= want)' if asp == 'sound' else 'got != want')
+                m = r.get('closed_model') if asp == 'closed' else (r.get('model') if (asp != 'verdict' or d7) else r.get('d7_model'))
+                path, out = mc.fair_replay(r, m, {'sound': 'not (got <= want)', 'closed': 'any(b in got and a not in got for (a, b) in R)'}.get(asp, 'got != want'))
                 if path:
                     rep.violation('%s (%s): %s' % (key, asp, out.strip().splitlines()[-2:]), path)
                 else:
